@@ -107,6 +107,8 @@ pub const C05_PAYLOADS: &[Payload] = &[
     e(Det::AssignUpdateArrayValue, "other-array", Near, "arr[1] = a0[1] + x"),
     e(Det::AssignUpdateArrayValue, "other-index", Near, "arr[1] = arr[2] + x"),
     e(Det::AssignUpdateArrayValue, "index-differs-in-exponent", Near, "arr[1e1] = arr[1] + x"),
+    e(Det::AssignUpdateArrayValue, "different-indices-above-u64", Near, "arr[18446744073709551616] = arr[18446744073709551617] + x"),
+    e(Det::AssignUpdateArrayValue, "same-index-above-u64", Canon, "arr[18446744073709551616] = arr[18446744073709551616] + x"),
     e(Det::AssignUpdateArrayValue, "index-digits-and-exponent-concatenate-alike", Near, "arr[1e12] = arr[11e2] + x"),
     e(Det::AssignUpdateArrayValue, "index-digits-and-exponent-concatenate-alike-2", Near, "arr[12e3] = arr[1e23] - x"),
     e(Det::AssignUpdateArrayValue, "index-same-value-other-text", Near, "arr[10] = arr[1e1] + x"),
@@ -1654,6 +1656,10 @@ pub fn same_name_variable_files() -> Vec<(String, String)> {
     out.push(("memory-parameter-written+memory-parameter-read".into(), format!("{}{}{}", h, mw("A", "f"), mr("B", "g"))));
     out.push(("memory-parameter-read+memory-parameter-written".into(), format!("{}{}{}", h, mr("B", "g"), mw("A", "f"))));
     out.push(("memory-parameter-written+free-function-reading".into(), format!("{}{}function fr(uint[] memory a) pure returns (uint) {{ return a[0]; }}\n", h, mw("A", "f"))));
+    // RELATED contracts (inheritance) that do not mention each other's members: every per-contract verdict still composes
+    out.push(("inheritance-without-cross-reference:packing".into(), format!("{}contract Base {{\n    uint128 a;\n    function g() public view returns (uint128) {{ return a; }}\n}}\ncontract Derived is Base {{\n    uint256 t;\n    uint128 p;\n    function k() public view returns (uint256) {{ return t + p; }}\n}}\n", h)));
+    out.push(("inheritance-without-cross-reference:packing-base-last".into(), format!("{}contract Derived is Base {{\n    uint256 t;\n    uint128 p;\n    function k() public view returns (uint256) {{ return t + p; }}\n}}\ncontract Base {{\n    uint128 a;\n    uint256 b;\n    uint128 c;\n    function g() public view returns (uint256) {{ return a + b + c; }}\n}}\n", h)));
+    out.push(("inheritance-without-cross-reference:constructors".into(), format!("{}contract Base {{\n    uint v;\n    constructor() {{ v = 1; }}\n    function g() public view returns (uint) {{ return v; }}\n}}\ncontract Derived is Base {{\n    uint w;\n    constructor() {{ w = 2; }}\n    function k() public view returns (uint) {{ return w; }}\n}}\n", h)));
     // control: different names -- no interference possible
     out.push(("control-different-names".into(), format!("{}{}{}", h, reader("A", "x"), writer("B", "z", "@ = 1"))));
     out
